@@ -79,6 +79,49 @@ theorem C19_removed_is_gone (a : Acc) (s : Nat) (r vkey : String) (v : Nat) (x :
       · exact f15 p k v' hv'
   exact (closeSession_sub { a with h := { a.h with vtable := fun p k => if p = s ∧ k = vkey then none else a.h.vtable p k } } v hi').2
 
+/-- "The backend is told when it is removed or when its internal client's session ends": the check compares
+the "remove" requests the backend receives in a step with `goneVirtual pre post`; that list is exactly the
+virtual sessions that were in a room before the step and exist no more after it. -/
+theorem C19_gone_iff (pre post : Hub) (hi : Inv pre) (v : Nat) (r : String) :
+    (r, v) ∈ goneVirtual pre post ↔
+      ∃ x, pre.sess v = some x ∧ x.kind = .virtual ∧ x.room = some r ∧ post.sess v = none := by
+  unfold goneVirtual
+  rw [List.mem_filterMap]
+  constructor
+  · rintro ⟨w, _, hw⟩
+    cases hx : pre.sess w with
+    | none => simp [hx] at hw
+    | some x =>
+      simp only [hx] at hw
+      split at hw
+      · rename_i hc
+        cases hr : x.room with
+        | none => simp [hr] at hw
+        | some r' =>
+          simp only [hr, Option.map_some, Option.some.injEq, Prod.mk.injEq] at hw
+          obtain ⟨h1, h2⟩ := hw
+          subst h1; subst h2
+          simp only [Bool.and_eq_true, decide_eq_true_eq, Option.isNone_iff_eq_none] at hc
+          exact ⟨x, hx, hc.1, hr, hc.2⟩
+      · cases hw
+  · rintro ⟨x, hx, hk, hr, hg⟩
+    refine ⟨v, ?_, ?_⟩
+    · simp only [sids, List.mem_range]
+      by_cases hlt : v < pre.nextSid
+      · exact hlt
+      · have := hi.fresh v (by omega)
+        rw [hx] at this; cases this
+    · simp [hx, hk, hg, hr]
+
+/-- With `C19_removed_is_gone`: an explicit removal is one of the reported ones. -/
+theorem C19_removed_is_reported (a : Acc) (s : Nat) (r vkey : String) (v : Nat) (x vx : Sess) (rm : Room) (r' : String)
+    (hi : Inv a.h) (hx : a.h.sess s = some x) (hk : x.kind = .internal) (hrm : a.h.rooms x.backend r = some rm)
+    (hv : a.h.vtable s vkey = some v) (hvx : a.h.sess v = some vx) (hr : vx.room = some r') :
+    (r', v) ∈ goneVirtual a.h (removeVirtual a s r vkey).h := by
+  obtain ⟨y, hy, hyk, _, _⟩ := hi.vtable s vkey v hv
+  rw [hvx] at hy; cases hy
+  exact (C19_gone_iff _ _ hi v r').mpr ⟨vx, hvx, hyk, hr, C19_removed_is_gone a s r vkey v x rm hi hx hk hrm hv⟩
+
 private def demo : List Op :=
   [.connect 1, .connect 2, .hello 1 0 .internal "" false false, .hello 2 0 .client "bob" false false,
    .join 2 "room" "n2" (.ok none ""), .addVirtual 1 "room" "phone-7" "carol" none true,
